@@ -128,8 +128,6 @@ def in_re_trigger(s, R, got_kind, got):
         feats.append("str.to_re:backslash-letter-rewritten")
     if "\n" in s and any(n[0] == "re.all" for n in nodes):
         feats.append("re.all:newline")
-    if s.endswith("\n"):
-        feats.append("anchor:trailing-newline")
     if any(ord(c) > 0xff for l in lits + [s] for c in l):
         feats.append("string-literal:char>0xff")
     if any(l == "" for l in lits) and any(n[0] in ("re.*", "re.+", "re.loop") for n in nodes):
@@ -169,7 +167,7 @@ def trigger(op, args, node, kind, v):
         try:
             pat = emul_re(R)
             try:
-                emu = ("val", re.match(f"^{pat}$", s) is not None)
+                emu = ("val", re.fullmatch(pat, s) is not None)
             except Exception as e:
                 emu = ("raises", type(e).__name__)
         except IndexError as e:
